@@ -570,3 +570,82 @@ def c34(pid, spec, tier, seed):
             k = 'both-accept' if a['ok'] else 'both-reject'
             res['dist'][k] = res['dist'].get(k, 0) + 1
     return res
+
+
+C29_TEXT = {
+    'sync': '%start S\n%%\nS: ;;\n',
+    'bgerr': '%start S\n%%\nS: A | B;\nA: "a" "b";\nB: "a" "c";\n',
+    'bgwarn': "%start S\n%grammar_type 'lalr(1)'\n%%\nS: S \"+\" S | \"x\";\n",
+    'ok': '%start S\n%%\nS: "a";\n',
+}
+C29_CLASS = {'sync': 'TSyncErr', 'bgerr': 'TBgErr', 'bgwarn': 'TBgWarn', 'ok': 'TOk'}
+
+
+def c29_classify(diags):
+    if not diags:
+        return 'DOk'
+    msg = ' '.join(d.get('message', '') for d in diags)
+    if 'Maximum lookahead' in msg:
+        return 'DBgErr'
+    if 'resolved conflicts' in msg:
+        return 'DBgWarn'
+    return 'DSyncErr'
+
+
+def c29_history(hist, idx):
+    """hist: list of (class, slow). Returns (real log, model schedule)."""
+    srv = lsp.Server(lookahead=1, env_extra={'PAROL_LS_VERIF_BG_DELAY_MS': '1600'})
+    uri = 'file:///c29_%d.par' % idx
+    sched = []
+    outstanding = []   # slow analyses still running, in spawn order
+    for i, (c, slow) in enumerate(hist):
+        text = ('// verif-slow %d\n' % i if slow else '// v%d\n' % i) + C29_TEXT[c]
+        if i == 0:
+            srv.open(uri, text, 1)
+        else:
+            srv.change(uri, text, i + 1)
+        sched += [0] if c == 'sync' else [0, 1]
+        if c != 'sync':
+            if slow:
+                outstanding.append(i)
+            else:
+                srv.drain(0.2)
+                sched.append(2 + len(outstanding))
+    srv.drain(0.25)
+    sched += [2] * len(outstanding)
+    srv.drain(2.2 if outstanding else 0.3)
+    log = [(d['version'], c29_classify(d['diagnostics'])) for d in srv.diagnostics(uri)]
+    alive = srv.alive()
+    srv.close()
+    return log, sched, alive
+
+
+def c29(pid, spec, tier, seed):
+    """Histories of open/change events with slow/fast background analyses against the real server and the model."""
+    ensure_ls()
+    res = new_result()
+    rng = random.Random(seed ^ 0x29)
+    import itertools
+    from concurrent.futures import ThreadPoolExecutor
+    kinds = []
+    # 'bgwarn' (LALR grammar with resolved conflicts) is not used: over stdio the analysis thread blocks for ever in the
+    # println! of the table generator (stdout is locked by the LSP writer thread), so it never finishes (observation D18)
+    for c in ('sync', 'bgerr', 'ok'):
+        kinds.append((c, False))
+        if c != 'sync':
+            kinds.append((c, True))
+    hists = [list(h) for n in (1, 2) for h in itertools.product(kinds, repeat=n)]
+    h3 = [list(h) for h in itertools.product(kinds, repeat=3)]
+    hists += h3 if tier == 'thorough' else rng.sample(h3, 24)
+    if tier == 'thorough':
+        h4 = [list(h) for h in itertools.product(kinds, repeat=4)]
+        hists += rng.sample(h4, 150)
+    with ThreadPoolExecutor(max_workers=12) as ex:
+        outs = list(ex.map(lambda ih: c29_history(ih[1], ih[0]), enumerate(hists)))
+    lines = []
+    for h, (log, sched, alive) in zip(hists, outs):
+        evs = ' '.join('(%s %d %s)' % ('open' if i == 0 else 'change', i + 1, C29_CLASS[c]) for i, (c, _) in enumerate(h))
+        lines.append('(diag (%s) (%s) (%s) %d)' % (evs, ' '.join(map(str, sched)), ' '.join('(%d %s)' % (v, d) for v, d in log), 1 if alive else 0))
+    drv_lines(pid, lines, res, 'histories')
+    res['samples'] = lines[:2] + [l for l in lines if 'TBgErr' in l][:1]
+    return res
